@@ -308,6 +308,19 @@ def _match(actual, pattern):
     return actual == pattern
 
 
+def private_numba_cache(tag):
+    """numba's on-disk cache is not safe against many processes creating entries at the same time (seen: IndexError
+    inside jitted code after a concurrent first population). Parallel driver processes therefore get a private COPY
+    of the shared cache directory; only serial code writes to the shared one."""
+    shared = os.environ.get("NUMBA_CACHE_DIR")
+    d = os.path.join(scratch("nbc"), "c")
+    if shared and os.path.isdir(shared):
+        shutil.copytree(shared, d)
+    else:
+        os.makedirs(d)
+    return d
+
+
 def run_py(code_or_args, timeout=120, env=None, input_json=None, cwd=None):
     """Run a python snippet / module against the repo in a subprocess with stdin closed."""
     e = dict(os.environ)
